@@ -43,6 +43,55 @@ def _cmp_chunk(chunk):
     return len(chunk) * 16, nt, fails
 
 
+VERS = ['0.9', '1.0', '1.0.1', '1.1', '2.0', '2.0a', '3']
+RANGE_OPS = ['>=', '>', '<=', '<', '==', '!=', '']
+
+
+def _range_chunk(chunk):
+    """the range built from a list of checks contains every version satisfying all checks and no version violating a
+    non-!= check; intersect is set intersection; always() answers only when every / no version of the range satisfies"""
+    from mesonbuild.utils.universal import Version, version_compare, version_check_to_range, Range
+    probes = [Version(v) for v in VERS + ['0', '1.0.0.1', '9']]
+    fails, nt = [], 0
+    for checks in chunk:
+        checks = list(checks)
+        r = version_check_to_range(checks)
+        nt += len(checks) >= 2
+        for pv in probes:
+            ps = pv._s
+            allok = all(version_compare(ps, c) for c in checks)
+            nonne_viol = any(not version_compare(ps, c) for c in checks if not c.startswith('!='))
+            inr = pv in r
+            if allok and not inr:
+                fails.append({'case': {'checks': checks, 'version': ps}, 'stage': 'range', 'detail': f'{ps} satisfies all checks but is not in the range {r}'})
+                break
+            if inr and nonne_viol:
+                fails.append({'case': {'checks': checks, 'version': ps}, 'stage': 'range', 'detail': f'{ps} violates a non-!= check but is in the range {r}'})
+                break
+    return len(chunk), nt, fails
+
+
+def _algebra_chunk(chunk):
+    from mesonbuild.utils.universal import Version, version_check_to_range
+    probes = [Version(v) for v in VERS + ['0', '1.0.0.1', '9']]
+    fails, nt = [], 0
+    for ca, cb in chunk:
+        a, b = version_check_to_range(list(ca)), version_check_to_range(list(cb))
+        i = a.intersect(b)
+        nt += 1
+        for pv in probes:
+            if (pv in i) != ((pv in a) and (pv in b)):
+                fails.append({'case': {'a': list(ca), 'b': list(cb), 'version': pv._s}, 'stage': 'intersect', 'detail': f'{pv._s} in intersect = {pv in i}, in a = {pv in a}, in b = {pv in b}'})
+                break
+        al = a.always(b)
+        ina = [pv for pv in probes if pv in a]
+        if al is True and any(pv not in b for pv in ina):
+            fails.append({'case': {'a': list(ca), 'b': list(cb)}, 'stage': 'always', 'detail': 'always() is True but some version of the range is outside the inner range'})
+        if al is False and any(pv in b for pv in ina):
+            fails.append({'case': {'a': list(ca), 'b': list(cb)}, 'stage': 'always', 'detail': 'always() is False but some version of the range is inside the inner range'})
+    return len(chunk) * len(probes), nt, fails
+
+
 def run(REG, tier, seed, jobs):
     parts = []
     n = 4 if tier == 'quick' else 5
@@ -57,10 +106,25 @@ def run(REG, tier, seed, jobs):
     ev, nt, fails = pmap(_cmp_chunk, chunked(iter(pairs), 2000), jobs)
     parts.append({'name': 'C19/bounded/version_compare-vs-order', 'function': 'version_compare', 'bound': f'{len(pairs)} pairs of version strings of <= 3 fragments over 1,2,10,a,b,.,- x 8 operator spellings x 2 spacings',
                   'evaluations': ev, 'distinct_nontrivial': nt, 'rule': 'non-trivial: the two versions are not equal in the order', 'exhaustive': tier != 'quick', 'failures': fails})
+    single = [op + v for op in RANGE_OPS for v in VERS[:5]]
+    k = 2 if tier == 'quick' else 3
+    lists = itertools.chain.from_iterable(itertools.product(single, repeat=j) for j in range(0, k + 1))
+    ev, nt, fails = pmap(_range_chunk, chunked(lists, 500), jobs)
+    parts.append({'name': 'C19/bounded/version_check_to_range-vs-version_compare', 'function': 'version_check_to_range', 'bound': f'all check lists of <= {k} checks over {len(single)} single checks (7 operator spellings x 5 versions), probed with 10 versions',
+                  'evaluations': ev, 'distinct_nontrivial': nt, 'rule': 'non-trivial: at least two checks', 'exhaustive': True, 'failures': fails})
+    s2 = [(c,) for c in single[::2]] + [(a, b) for a in single[::5] for b in single[::7]]
+    pairs = list(itertools.product(s2, s2))
+    if tier == 'quick':
+        pairs = rnd.sample(pairs, min(len(pairs), 6000))
+    ev, nt, fails = pmap(_algebra_chunk, chunked(iter(pairs), 300), jobs)
+    parts.append({'name': 'C19/bounded/range-intersect-and-always', 'function': 'Range.intersect / Range.always', 'bound': f'{len(pairs)} pairs of ranges built from check lists, probed with 10 versions',
+                  'evaluations': ev, 'distinct_nontrivial': nt, 'rule': 'every pair', 'exhaustive': tier != 'quick', 'failures': fails})
     return {'parts': parts}
 
 
 CHECKS = {
+    'C19/bounded/version_check_to_range-vs-version_compare': (_range_chunk, lambda c: tuple(c['checks'])),
+    'C19/bounded/range-intersect-and-always': (_algebra_chunk, lambda c: (tuple(c['a']), tuple(c['b']))),
     'C19/bounded/Version.__init__==spec_toks': (_tok_chunk, lambda c: c['s']),
     'C19/bounded/version_compare-vs-order': (_cmp_chunk, lambda c: (c.get('vstr1', c.get('a')), (c.get('vstr2') or c.get('b')).lstrip('<>=! '))),
 }
